@@ -46,6 +46,9 @@ def rand_class(rng, max_alpha=3, max_prefix=3, max_stats=3, bytes_p=0.15, atoms=
         d["right"] = {"prefix": "".join(rng.choice(alphabet) for _ in range(rng.choice((0, 0, 1)))),
                       "patterns": sorted(rp), "alphabet": alphabet, "just_prefix": False,
                       "stats": stats, "proper": bool(rng.random() < 0.15), "right": None}
+    if d["right"] is None and not d["just_prefix"] and rng.random() < 0.07:
+        # flagged class: every word preceded by one of 2-3 flag letters (non-bijective rule)
+        d["flags"] = rng.choice(("xy", "xy", "xyz"))
     return d
 
 
@@ -83,6 +86,10 @@ def rand_pack(rng, cls=None, allow_iterative=True, allow_prefix_ver=True, allow_
     o["swap"] = rng.random() < 0.3
     # several rules per class: two-step expansions next to the plain one
     o["twice"] = rng.choice(([], [], [], [], [], [0], [1], [0, 1]))
+    # several parent statistics on one child statistic in products; union children that do
+    # not carry some of the parent's statistics
+    o["merge"] = rng.random() < 0.3
+    o["dead"] = rng.random() < 0.35
     return o
 
 
